@@ -15,7 +15,9 @@
 (***************************************************************************)
 EXTENDS Netflow, Json
 
-CONSTANT Depth2        \* TRUE: also offer two-packet buffers
+CONSTANT Depth2,       \* TRUE: also offer two-packet buffers
+         Life,         \* "off", or "v9" / "ipfix": the life-cycle alphabet of one template id (below)
+         LifeLetters   \* how many letters of that alphabet are offered
 
 B4(a) == <<a, a + 1, a + 2, a + 3>>
 H9 == [sys_up_time |-> B4(1), unix_secs |-> B4(5), seq |-> B4(9), source_id |-> B4(13)]
@@ -34,7 +36,7 @@ Nop(v)         == [t |-> "nop", ver |-> v]
 Stop(v)        == [t |-> "stop", ver |-> v]
 V(n) == [t |-> "ver", ver |-> n]       \* start of a packet of version n
 
-Items ==
+BaseItems ==
  << [b |-> EncV9Hdr(1, H9) \o EncV9TmplSet(<<T(256, FA)>>, <<>>),              toks |-> <<V(9), Def("v9", "data", T(256, FA))>>],
     [b |-> EncV9Hdr(1, H9) \o EncV9TmplSet(<<T(256, FB)>>, <<0, 0>>),          toks |-> <<V(9), Def("v9", "data", T(256, FB))>>],
     [b |-> EncV9Hdr(1, H9) \o EncV9TmplSet(<<T(256, FC)>>, <<>>),              toks |-> <<V(9), Def("v9", "data", T(256, FC))>>],
@@ -83,6 +85,44 @@ Items ==
                                                                               toks |-> <<V(10), Nop(10)>>],
     [b |-> <<0, 5, 0, 0>> \o B4(1) \o B4(2) \o B4(3) \o B4(4) \o B4(5),        toks |-> <<V(5), Nop(5)>>],
     [b |-> <<0, 1, 0, 0, 1, 0, 0, 2>>,                                          toks |-> <<V(1), Stop(1)>>] >>
+
+(***************************************************************************)
+(* The life cycle of ONE template id of ONE protocol: defined (8-byte      *)
+(* records), redefined with as many fields but shorter records, redefined  *)
+(* as an options template (two shapes), refreshed, used by a data set that *)
+(* holds a different number of records under each definition.  With the    *)
+(* history kept in the VIEW (LifeView) TLC enumerates EVERY sequence of    *)
+(* MaxCalls such packets, not every (cache, packet) pair once: a sequence  *)
+(* such as  define, data, redefine as options, define shorter, data  is a  *)
+(* behaviour of its own, and becomes a vector of its own, although its     *)
+(* cache states were all met before.  An implementation that keeps state   *)
+(* of its own per template id (a memoised record size, a decoder table)    *)
+(* goes wrong only on particular such sequences.                           *)
+(***************************************************************************)
+Body12 == <<11, 12, 13, 14, 15, 16, 17, 18, 19, 20, 21, 22>>
+OT9b(id) == [id |-> id, scope_len |-> 4, opt_len |-> 8, scope |-> <<Spec9(1, 4)>>, opts |-> <<Spec9(2, 4), Spec9(10, 2)>>]
+OTXb(id) == [id |-> id, count |-> 1, scope_count |-> 1, fields |-> <<Spec9(8, 4)>>]
+LifeItems ==
+  IF Life = "v9" THEN
+   << [b |-> EncV9Hdr(1, H9) \o EncV9TmplSet(<<T(256, FA)>>, <<>>),     toks |-> <<V(9), Def("v9", "data", T(256, FA))>>],
+      [b |-> EncV9Hdr(1, H9) \o EncV9TmplSet(<<T(256, FC)>>, <<>>),     toks |-> <<V(9), Def("v9", "data", T(256, FC))>>],
+      [b |-> EncV9Hdr(1, H9) \o EncV9OtmplSet(<<OT9(256)>>, <<>>),      toks |-> <<V(9), Def("v9", "opts", OT9(256))>>],
+      [b |-> EncV9Hdr(1, H9) \o EncSet(256, Body12),                    toks |-> <<V(9), Data("v9", 256)>>],
+      [b |-> EncV9Hdr(1, H9) \o EncV9OtmplSet(<<OT9b(256)>>, <<>>),     toks |-> <<V(9), Def("v9", "opts", OT9b(256))>>],
+      [b |-> EncV9Hdr(1, H9) \o EncV9TmplSet(<<T(256, FB)>>, <<0, 0>>), toks |-> <<V(9), Def("v9", "data", T(256, FB))>>],
+      [b |-> EncV9Hdr(2, H9) \o EncV9TmplSet(<<T(256, FA)>>, <<>>) \o EncSet(256, Body12),
+                                                                        toks |-> <<V(9), Def("v9", "data", T(256, FA)), Data("v9", 256)>>] >>
+  ELSE
+   << [b |-> EncIpfixMsg(HX, <<EncIpfixTmplSet(<<T(256, FA)>>, <<>>)>>),   toks |-> <<V(10), Def("ipfix", "data", T(256, FA))>>],
+      [b |-> EncIpfixMsg(HX, <<EncIpfixTmplSet(<<T(256, FC)>>, <<>>)>>),   toks |-> <<V(10), Def("ipfix", "data", T(256, FC))>>],
+      [b |-> EncIpfixMsg(HX, <<EncIpfixOtmplSet(<<OTX(256)>>, <<>>)>>),    toks |-> <<V(10), Def("ipfix", "opts", OTX(256))>>],
+      [b |-> EncIpfixMsg(HX, <<EncSet(256, Body12)>>),                     toks |-> <<V(10), Data("ipfix", 256)>>],
+      [b |-> EncIpfixMsg(HX, <<EncIpfixOtmplSet(<<OTXb(256)>>, <<>>)>>),   toks |-> <<V(10), Def("ipfix", "opts", OTXb(256))>>],
+      [b |-> EncIpfixMsg(HX, <<EncIpfixTmplSet(<<T(256, FB)>>, <<>>)>>),   toks |-> <<V(10), Def("ipfix", "data", T(256, FB))>>],
+      [b |-> EncIpfixMsg(HX, <<EncIpfixTmplSet(<<T(256, FA)>>, <<>>), EncSet(256, Body12)>>),
+                                                                          toks |-> <<V(10), Def("ipfix", "data", T(256, FA)), Data("ipfix", 256)>>] >>
+LifeData == 4        \* the letter that observes: a data set for the id
+Items == IF Life = "off" THEN BaseItems ELSE SubSeq(LifeItems, 1, LifeLetters)
 NI == Len(Items)
 
 Singles == {<<i>> : i \in 1..NI}
@@ -92,7 +132,7 @@ BytesOf(sc) == Flatten([i \in 1..Len(sc) |-> Items[sc[i]].b])
 ToksOf(sc)  == Flatten([i \in 1..Len(sc) |-> Items[sc[i]].toks])
 MCBuffers == {BytesOf(sc) : sc \in Scripts}
 TokensOf(b) == ToksOf(CHOOSE sc \in Scripts : BytesOf(sc) = b)
-MCAllowedSets == {{5, 7, 9, 10}, {5, 7, 9}, {5, 10}}
+MCAllowedSets == IF Life = "off" THEN {{5, 7, 9, 10}, {5, 7, 9}, {5, 10}} ELSE {{5, 7, 9, 10}}
 
 -----------------------------------------------------------------------------
 \* token-level semantics of one call
@@ -122,4 +162,8 @@ CacheIsLatest == ~InCall => \A p \in Parsers : tmpl[p] = want[p]
 
 \* IPFIX: when two records of one set redefine... (ideal model: both are cached)
 EmitVector == (InCall /\ call'.p = "none") => PrintT("VEC~~" \o ToJson(hist))
+\* life-cycle runs: every history is a state of its own; one vector per complete history that ends in a data set
+LifeView == <<MCView, hist>>
+EmitLife == (InCall /\ call'.p = "none" /\ ncalls = MaxCalls /\ hist[Len(hist)].buf = Items[LifeData].b)
+              => PrintT("VEC~~" \o ToJson(hist))
 =============================================================================
